@@ -206,8 +206,9 @@ class PathRecord:
             by_slot = {}
             for slot, key, v in entries:
                 by_slot.setdefault(slot, {})[key] = v
+            # m[k] at keccak(k . slot): halmos' solidity layout keeps it as the array <slot>_2_512 indexed by Concat(k, 0)
             for slot, d in by_slot.items():
-                env[f"storage_0x{a:040x}_{slot}_1_256_00"] = (d, 0)
+                env[f"storage_0x{a:040x}_{slot}_2_512_00"] = ({k << 256: v for k, v in d.items()}, 0)
         ev = zeval.Evaluator(env)
         return ev
 
